@@ -63,6 +63,9 @@ impl<'a> Choices<'a> {
     pub fn pick<'b, T: ?Sized>(&mut self, items: &'b [&'b T]) -> &'b T {
         items[self.below(items.len())]
     }
+    pub fn pick_s(&mut self, items: &[&'static str]) -> &'static str {
+        items[self.below(items.len())]
+    }
     pub fn pickv<'b, T>(&mut self, items: &'b [T]) -> &'b T {
         &items[self.below(items.len())]
     }
